@@ -75,7 +75,8 @@ class SparseStub:
 
 
 def work(item):
-    rdeg, ncells, rpath, qdeg, ntheta, nprocs, lN, uN, a_const, c_zero, canary = item
+    rdeg, ncells, rpath, qdeg, ntheta, nprocs, lN, uN, a_const, c_zero, canary = item[:11]
+    func_rhs = len(item) > 11 and item[11]          # right-hand side given as a function of r (solveEquationForFunction)
     res = H.worker_result()
     m = dist.mods()
     ps = H.repo_import('pygyro.poisson.poisson_solver')
@@ -122,7 +123,15 @@ def work(item):
             solver = ps.DiffEqSolver(qdeg, rb, nr, ntheta, lNeumannIdx=list(lN), uNeumannIdx=list(uN),
                                      ddrFactor=A, drFactor=B, rFactor=C, ddThetaFactor=D, rhoFactor=E)
             n0 = len(SOLVES)
-            solver.solveEquation(phi, rho)
+            if func_rhs:
+                def rho_fn(rr):
+                    out = np.empty(len(rr), dtype=object)
+                    for k_, x_ in enumerate(rr):
+                        out[k_] = symx.uf('RHOF', K(x_))
+                    return out
+                solver.solveEquationForFunction(phi, rho_fn)
+            else:
+                solver.solveEquation(phi, rho)
             L = h.getLayout('mode_solve')
             return L, np.array(phi.getAllData(), dtype=object), SOLVES[n0:], solver
         return simmpi.World(nranks).run(rankfn)
@@ -212,13 +221,20 @@ def work(item):
                         bad.append(z3.BoolVal(True))
                         where.append(('system of wrong size %s for %d unknowns' % (Am.shape, len(unknowns)), rk, I, jz))
                         continue
-                    coef = SO.interpolant_coeffs(T, rdeg, False, ncells, rpts, list(RHO[:, I, jz]))
+                    coef = None if func_rhs else SO.interpolant_coeffs(T, rdeg, False, ncells, rpts, list(RHO[:, I, jz]))
                     for ia, a in enumerate(unknowns):
                         for ib, b in enumerate(unknowns):
                             bad.append(toreal(zt(K(Am.M[ia, ib]))) != toreal(zt(entry(a, b, Fr(mm * mm)))))
                             where.append(('stiffness entry (%d,%d)' % (a, b), rk, I, jz))
                         rhs = K(0)
-                        for b in range(nb):
+                        if func_rhs:
+                            # weak form of E*rho against the test function: sum_q w_q E(x_q) rho(x_q) B_a(x_q) x_q
+                            for (x, w, c), (v, dv) in zip(quad, Bv):
+                                va = v[a]
+                                if isinstance(va, int) and va == 0:
+                                    continue
+                                rhs = rhs + E(x) * symx.uf('RHOF', K(x)) * K(va * x * w)
+                        for b in (range(nb) if not func_rhs else ()):
                             rhs = rhs + mass(a, b) * coef[b]
                         bad.append(toreal(zt(K(bm[ia]))) != toreal(zt(rhs)))
                         where.append(('right-hand side row %d' % a, rk, I, jz))
@@ -276,7 +292,8 @@ def work(item):
 
 def float_replay(m, ps, item):
     """real float solver (real scipy.sparse / spsolve) vs. an independent dense float Galerkin solve with concrete smooth coefficients"""
-    rdeg, ncells, rpath, qdeg, ntheta, nprocs, lN, uN, a_const, c_zero, _ = item
+    rdeg, ncells, rpath, qdeg, ntheta, nprocs, lN, uN, a_const, c_zero = item[:10]
+    func_rhs = len(item) > 11 and item[11]
     numenv.disable()
     try:
         breaks = radial_breaks(rpath, ncells)
@@ -321,7 +338,11 @@ def float_replay(m, ps, item):
             dist.fill_grid(rho, RHO)
             solver = ps.DiffEqSolver(qdeg, rb, nr, ntheta, lNeumannIdx=list(lN), uNeumannIdx=list(uN),
                                      ddrFactor=Af, drFactor=Bf, rFactor=Cf, ddThetaFactor=Df, rhoFactor=Ef)
-            solver.solveEquation(phi, rho)
+            rho_f = lambda r: 1.0 + 0.3 * r * r
+            if func_rhs:
+                solver.solveEquationForFunction(phi, rho_f)
+            else:
+                solver.solveEquation(phi, rho)
             L = h.getLayout('mode_solve')
             worst = 0.0
             colloc = np.array([fbasis(x, SO.find_cell_fraction(Tq, rdeg, Fr(float(x))) - rdeg, 0) for x in rpts])
@@ -338,8 +359,12 @@ def float_replay(m, ps, item):
                         Mmat[a, b] = np.sum(W * Ef(X) * V[b] * V[a] * X)
                 for jl in range(L.shape[1]):
                     jz = jl + int(L.starts[1])
-                    c = np.linalg.solve(colloc, RHO[:, I, jz])
-                    sol = np.linalg.solve(Kmat[np.ix_(unk, unk)], (Mmat @ c)[unk])
+                    if func_rhs:
+                        load = np.array([np.sum(W * Ef(X) * rho_f(X) * V[a] * X) for a in range(nb)])
+                        sol = np.linalg.solve(Kmat[np.ix_(unk, unk)], load[unk])
+                    else:
+                        c = np.linalg.solve(colloc, RHO[:, I, jz])
+                        sol = np.linalg.solve(Kmat[np.ix_(unk, unk)], (Mmat @ c)[unk])
                     full = np.zeros(nb, dtype=complex)
                     full[unk] = sol
                     exp = colloc @ full
@@ -395,6 +420,7 @@ def main():
         items.append((3, 3, 'cu', 7, 4, (1, 2), (), (), Fr(-1), True, None))
         items.append((2, 4, 'nu', 5, 4, (2, 1), (2, -2), (1,), Fr(-1), False, None))
         items.append((1, 2, 'nu', 3, 4, (2, 1), (1, -1), (1,), Fr(-1), False, None))      # pure Neumann on mode 1 with C != 0 (64 funcIsNull paths)
+    items.append((2, 3, 'nu', 4, 4, (1, 1), (0,), (), Fr(-1), False, None, True))          # right-hand side given as a function
     items.append((2, 3, 'nu', 4, 4, (1, 1), (0,), (), Fr(-1), False, CANARIES[0]))
     items.append((2, 3, 'nu', 4, 4, (2, 1), (), (-1, 1), Fr(-1), False, CANARIES[1]))
     caught = {}
